@@ -73,6 +73,7 @@ def run(ctx):
         return refs[key]
 
     skip_n = [0]
+    hist_n = [0]
 
     def run_history(cfgs, events, seed, tag):
         """cfgs: {name: (fmt, precision)}, events: list of (kind, name)"""
@@ -82,6 +83,7 @@ def run(ctx):
         trace = []
         constructed_after_last_write_of = {}
         kept = {}  # format -> longest raw file this history has produced so far
+        hist_n[0] += 1
         for kind, name in events:
             trace.append([kind, name, list(cfgs[name])])
             fmt, prec = cfgs[name]
@@ -101,7 +103,9 @@ def run(ctx):
                 if name not in writers:
                     continue
                 w = writers[name]
-                path = os.path.join(tmp, "c15_%d_%d%s" % (os.getpid(), len(trace), ".xml" if fmt == "xml" else ".pb"))
+                # one file name per writer and history: a writer meets the SAME name again (written before with ALWAYS,
+                # skipped before, ...); what it does there depends on the mode of the current call only
+                path = os.path.join(tmp, "c15_%d_%d_%s%s" % (os.getpid(), hist_n[0], name, ".xml" if fmt == "xml" else ".pb"))
                 if kind in ("write", "write-scenario"):
                     # the target of an ALWAYS write: a new file name, the file the previous write of this history left
                     # behind (typically longer: write_to_file, then write_scenario_to_file to the same name), or an
